@@ -3,13 +3,14 @@ import RadixModel.Model.Tracker
 open Radix Radix.Proto Radix.Tracker
 
 /-
-Line protocol (areas `c07` = unit level, `c07e` = engine level), one answer per line.
+Line protocol (areas `c07` = unit level, `ec07` = engine level), one answer per line.
   reset <se> <sp> <rs> <re> <epp>            unit: tracker with these fields            -> ok
   pfe <epoch>                                partition_for_expiry_epoch                 -> panic | none | some <p>
   adv                                        advance                                    -> panic | ok <old> <se> <sp>
   reset <se> <sp> <rs> <re> <epp> <epoch>    engine: post-genesis ledger                -> state <se> <sp> <rs> <re> <epp> <epoch>
   tx <0|1> <s|-> <e|-> <k> {t|s <hash> <expiry>}*k                                      -> reject … | commit <se> <sp> | panic
   sys <epoch>                                committed system transaction leaving epoch -> commit <se> <sp> | panic
+  round                                      real round change ending the epoch (epoch+1) -> commit <se> <sp> | panic
   jump <epoch>                               epoch substate overwritten                 -> ok
   peek <partition> <hash>                                                                -> none | success | failure | cancelled
 -/
@@ -83,6 +84,9 @@ def stepLine (l : Ledger) (line : String) : Ledger × String :=
     match u64? e with
     | some e => showStep l (step l (.system e))
     | none => (l, "bad-op")
+  | ["round"] =>
+    -- a real consensus round change that ends the epoch: a committed system transaction leaving epoch + 1
+    if l.epoch + 1 > U64MAX then (l, "bad-op") else showStep l (step l (.system (l.epoch + 1)))
   | ["jump", e] =>
     match u64? e with
     | some e => ({ l with epoch := e }, "ok")
